@@ -141,6 +141,21 @@ def gen_cases(ctx, n, repaired):
             call = ("stat", f)
         elif kind == "sort":
             call = ("sort",)
+            # numerically equal elements written differently (4 and 4.0): their relative order in the result depends on the
+            # sorting algorithm (sort.Slice is not stable) and is not a value: keep the first of each numeric value
+            seen = set()
+
+            def first_of_value(v):
+                q = numq(v)
+                if q is None:
+                    return True
+                dup = q in seen
+                seen.add(q)
+                return not dup
+            if arg[0] == "arr":
+                arg = ("arr", [x for x in arg[1] if first_of_value(x)])
+            elif arg[0] == "map":
+                arg = ("map", [(k, v) for k, v in arg[1] if first_of_value(v)])
         else:
             opts = gen_opts(rng)
             fl = opts_flags(opts)
